@@ -288,6 +288,7 @@ fn run_check(id: &str, thorough: bool) -> i32 {
         "states": states.max(0),
         "transitions": transitions,
         "traces_validated_against_impl": runs,
+        "traces_replayed_against_real_binary": results.iter().filter_map(|r| r.extra.get("validated_against_binary").and_then(|v| v.as_u64())).sum::<u64>(),
         "impl_executions": runs,
         "evaluations": evals,
         "distinct_nontrivial": if level == "fault_enumeration" { nontrivial_runs } else { distinct },
